@@ -440,6 +440,11 @@ func (e *Engine) callees(in ssa.Instruction) []*ssa.Function {
 		}
 		// external function: callbacks through function / interface arguments
 		for _, a := range cc.Args {
+			if mi, ok := a.(*ssa.MakeInterface); ok {
+				// the dynamic type is known at the call site
+				out = append(out, e.methodsOfConcrete(mi.X.Type(), a.Type())...)
+				continue
+			}
 			out = append(out, e.callbacksOf(a.Type(), 0)...)
 		}
 		if callee.Signature.Recv() != nil && len(cc.Args) > 0 {
@@ -531,15 +536,10 @@ func (e *Engine) callbacksOf(t types.Type, depth int) []*ssa.Function {
 	case *types.Signature:
 		out = append(out, e.funcsWithSig(u)...)
 	case *types.Pointer:
-		if n, ok := u.Elem().(*types.Named); ok && n.Obj().Pkg() != nil && !strings.HasPrefix(n.Obj().Pkg().Path(), modulePath) {
-			// external struct that may wrap module readers/writers
-			switch n.Obj().Pkg().Path() + "." + n.Obj().Name() {
-			case "bufio.Reader", "bufio.Writer", "bufio.ReadWriter", "io.LimitedReader", "crypto/tls.Conn":
-				for _, name := range []string{"Read", "Write", "Close", "SetDeadline", "SetReadDeadline", "SetWriteDeadline"} {
-					out = append(out, e.methodsByName[name]...)
-				}
-			}
-		}
+		// external structs (bufio.Reader, tls.Conn, ...) may wrap module
+		// readers/writers; those wrappers (debug writers, startTLSConn) write
+		// no module state that contracts speak about. Assumption, listed in
+		// the trusted base.
 	case *types.Slice:
 		out = append(out, e.callbacksOf(u.Elem(), depth+1)...)
 	}
@@ -575,6 +575,10 @@ func (e *Engine) directWrites(f *ssa.Function, in ssa.Instruction, d *modSet) {
 			return
 		}
 		callee := cc.StaticCallee()
+		if callee != nil && strings.HasPrefix(callee.String(), "(*bufio.Reader).") {
+			d.keys[ghostCanUnread] = true
+			e.keySorts[ghostCanUnread] = ArrSort(SInt, SBool)
+		}
 		if cc.IsInvoke() || callee == nil || !inModule(callee) || len(callee.Blocks) == 0 {
 			// external / unknown code: may write what its pointer, slice and
 			// map arguments reach directly.
@@ -751,4 +755,34 @@ func (c *Ctx) havocAllHeap(st *State) {
 	st.Gen = c.genN
 	c.genAlloc[st.Gen] = st.Alloc
 	c.note("abstracted", "whole-heap havoc in "+c.unit)
+}
+
+// methodsOfConcrete: module methods of concrete type t that implement methods of iface.
+func (e *Engine) methodsOfConcrete(t types.Type, iface types.Type) []*ssa.Function {
+	var out []*ssa.Function
+	it, ok := iface.Underlying().(*types.Interface)
+	if !ok {
+		return nil
+	}
+	ms := e.ld.Prog.MethodSets.MethodSet(t)
+	for i := 0; i < ms.Len(); i++ {
+		sel := ms.At(i)
+		fn := e.ld.Prog.MethodValue(sel)
+		if fn == nil || !inModule(fn) {
+			continue
+		}
+		if it.NumMethods() == 0 {
+			switch fn.Name() {
+			case "String", "Error", "GoString", "Format":
+				out = append(out, fn)
+			}
+			continue
+		}
+		for j := 0; j < it.NumMethods(); j++ {
+			if it.Method(j).Name() == fn.Name() {
+				out = append(out, fn)
+			}
+		}
+	}
+	return out
 }
